@@ -1,43 +1,235 @@
-//! Byte-level entry point for coverage-guided fuzzing (C05 thorough tier).
+//! Byte-level entry point for coverage-guided fuzzing (C05 thorough tier): a hand-written
+//! decoder from bytes to a case, on top of `arbitrary::Unstructured`.
 
-use crate::gen;
+use crate::elems::{HMode, VH};
 use crate::instr;
 use crate::interp::Prop;
-use crate::ops::Case;
+use crate::ops::*;
 use crate::runner;
-use proptest::strategy::{BoxedStrategy, Strategy, ValueTree};
-use proptest::test_runner::{Config, RngAlgorithm, TestRng, TestRunner};
-use std::cell::RefCell;
+use crate::zst::ZOp;
+use arbitrary::Unstructured;
 
-const TAIL: usize = 1 << 20;
+type R<T> = arbitrary::Result<T>;
 
-thread_local! {
-    static STRAT: RefCell<Option<BoxedStrategy<Case>>> = const { RefCell::new(None) };
+fn n(u: &mut Unstructured, max: u32) -> R<u32> {
+    u.int_in_range(0..=max)
+}
+fn b(u: &mut Unstructured) -> R<bool> {
+    Ok(u.int_in_range(0..=1u8)? == 1)
+}
+fn u16_(u: &mut Unstructured) -> R<u16> {
+    u.arbitrary::<u16>()
+}
+fn optw(u: &mut Unstructured) -> R<Option<u32>> {
+    Ok(if n(u, 2)? == 0 { None } else { Some(n(u, 999)?) })
+}
+fn take(u: &mut Unstructured) -> R<Option<u16>> {
+    Ok(if n(u, 2)? == 0 { None } else { Some(u16_(u)?) })
 }
 
-/// bytes -> case: the bytes are the random stream of the proptest generators
-pub fn decode(data: &[u8]) -> Option<Case> {
-    STRAT.with(|s| {
-        let mut s = s.borrow_mut();
-        if s.is_none() {
-            let mut p = gen::profile(Prop::C05, false);
-            p.max_ops = 40;
-            p.many_max = 140;
-            *s = Some(gen::case_strategy(&p));
-        }
-        // the pass-through stream must never run dry (rejection sampling would spin on the
-        // zero padding): append a pseudo-random tail derived from the input
-        let mut stream = Vec::with_capacity(data.len() + TAIL);
-        stream.extend_from_slice(data);
-        let mut x = data.iter().fold(0xcbf2_9ce4_8422_2325u64, |h, b| (h ^ *b as u64).wrapping_mul(0x100_0000_01b3));
-        while stream.len() < data.len() + TAIL {
-            x = crate::elems::splitmix(x);
-            stream.extend_from_slice(&x.to_le_bytes());
-        }
-        let rng = TestRng::from_seed(RngAlgorithm::PassThrough, &stream);
-        let mut runner = TestRunner::new_with_rng(Config { failure_persistence: None, ..Config::default() }, rng);
-        s.as_ref().unwrap().new_tree(&mut runner).ok().map(|t| t.current())
+fn keysel(u: &mut Unstructured) -> R<KeySel> {
+    Ok(match n(u, 9)? {
+        8 | 9 => KeySel::NextMoved(n(u, 19)? as u8),
+        0 | 1 => KeySel::Fresh,
+        2 => KeySel::Existing(u16_(u)?),
+        3 | 4 => KeySel::InOld(u16_(u)?),
+        5 => KeySel::InMain(u16_(u)?),
+        6 => KeySel::Any(n(u, 4095)?),
+        _ => KeySel::Absent(n(u, 4095)?),
     })
+}
+
+fn pred(u: &mut Unstructured) -> R<Pred> {
+    Ok(match n(u, 7)? {
+        0 => Pred::All,
+        1 => Pred::None,
+        2 => Pred::Mask(u.arbitrary::<u32>()?),
+        3 | 4 => Pred::OnlyOld,
+        5 => Pred::OnlyMain,
+        6 => Pred::ValueParity,
+        _ => Pred::KeyMod(2 + n(u, 3)? as u8, n(u, 5)? as u8),
+    })
+}
+
+fn caparg(u: &mut Unstructured) -> R<CapArg> {
+    Ok(match n(u, 4)? {
+        0 => CapArg::Small(n(u, 39)? as u8),
+        1 => CapArg::AroundFree(n(u, 6)? as i8 - 3),
+        2 => CapArg::AroundLen(n(u, 6)? as i8 - 3),
+        3 => CapArg::AroundHeadroom(n(u, 6)? as i8 - 3),
+        _ => CapArg::Medium(n(u, 600)? as u16),
+    })
+}
+
+fn tail(u: &mut Unstructured) -> R<Tail> {
+    Ok(match n(u, 3)? {
+        0 => Tail::Drop,
+        1 => Tail::RemoveOrInsert(n(u, 999)?),
+        2 => Tail::WriteOrInsert(n(u, 999)?),
+        _ => Tail::Peek,
+    })
+}
+
+fn ostep(u: &mut Unstructured) -> R<OStep> {
+    Ok(match n(u, 6)? {
+        0 => OStep::Key,
+        1 => OStep::Get,
+        2 => OStep::GetMut(1 + n(u, 48)?),
+        3 => OStep::Insert(n(u, 999)?),
+        4 => OStep::GetKeyValue,
+        5 => OStep::GetKeyValueMut(1 + n(u, 48)?),
+        _ => OStep::InsertKey,
+    })
+}
+
+fn oend(u: &mut Unstructured) -> R<OEnd> {
+    Ok(match n(u, 10)? {
+        0 => OEnd::Drop,
+        1 => OEnd::Remove,
+        2 => OEnd::RemoveEntry,
+        3 => OEnd::IntoMut(n(u, 999)?),
+        4 => OEnd::ReplaceEntry(n(u, 999)?),
+        5 => OEnd::ReplaceKey,
+        6 | 7 => OEnd::ReplaceWith(None, tail(u)?),
+        8 => OEnd::ReplaceWith(Some(1 + n(u, 48)?), tail(u)?),
+        9 => OEnd::IntoKey,
+        _ => OEnd::IntoKeyValue(n(u, 999)?),
+    })
+}
+
+fn vend(u: &mut Unstructured) -> R<VEnd> {
+    Ok(match n(u, 5)? {
+        0 => VEnd::Drop,
+        1 => VEnd::Key,
+        2 => VEnd::IntoKey,
+        3 => VEnd::Insert(n(u, 999)?, optw(u)?),
+        4 => VEnd::InsertHashedNocheck(n(u, 999)?, optw(u)?),
+        _ => VEnd::InsertWithHasher(n(u, 999)?, optw(u)?),
+    })
+}
+
+fn chain(u: &mut Unstructured) -> R<Chain> {
+    let mut steps = Vec::new();
+    for _ in 0..n(u, 2)? {
+        steps.push(match n(u, 4)? {
+            0 => EStep::AndModify(1 + n(u, 48)?),
+            1 => EStep::AndReplace(Some(1 + n(u, 48)?)),
+            2 | 3 => EStep::AndReplace(None),
+            _ => EStep::Key,
+        });
+    }
+    let end = match n(u, 8)? {
+        0 => EEnd::Drop,
+        1 => EEnd::Insert(n(u, 999)?, ostep(u)?, oend(u)?),
+        2 => EEnd::OrInsert(n(u, 999)?, optw(u)?),
+        3 => EEnd::OrInsertWith(n(u, 999)?, optw(u)?),
+        4 => EEnd::OrInsertWithKey(optw(u)?),
+        5 => EEnd::OrDefault(optw(u)?),
+        _ => EEnd::Match(ostep(u)?, oend(u)?, vend(u)?),
+    };
+    Ok(Chain { steps, end })
+}
+
+fn zop(u: &mut Unstructured) -> R<ZOp> {
+    let t = |u: &mut Unstructured| -> R<Option<u8>> { Ok(if n(u, 1)? == 0 { None } else { Some(n(u, 255)? as u8) }) };
+    Ok(match n(u, 30)? {
+        0 | 1 => ZOp::Insert,
+        2 | 3 => ZOp::Dup(n(u, 255)? as u8),
+        4 | 5 => ZOp::Remove,
+        6 => ZOp::RemoveEntry,
+        7 => ZOp::Get,
+        8 | 9 => ZOp::Reserve(n(u, 199)? as u16),
+        10 => ZOp::TryReserve(n(u, 199)? as u16),
+        11 => ZOp::ShrinkToFit,
+        12 => ZOp::ShrinkTo(n(u, 99)? as u16),
+        13 => ZOp::Retain(n(u, 255)? as u8, n(u, 255)? as u8),
+        14 => ZOp::DrainFilter(n(u, 255)? as u8, n(u, 255)? as u8, t(u)?, n(u, 3)? == 0),
+        15 => ZOp::EntryReplace(b(u)?),
+        16 => ZOp::RawReplace(b(u)?),
+        17 => ZOp::EntryRemove,
+        18 => ZOp::RawRemove,
+        19 => ZOp::OrInsert,
+        20 => ZOp::Iterate,
+        21 => ZOp::Drain(t(u)?, n(u, 3)? == 0),
+        22 => ZOp::IntoIter(t(u)?),
+        23 => ZOp::CloneFrom,
+        24 | 25 => ZOp::Trigger,
+        26 => ZOp::SetInsert,
+        27 => ZOp::SetRemove,
+        28 => ZOp::SetReserve(n(u, 199)? as u16),
+        29 => ZOp::SetRetain(b(u)?),
+        _ => ZOp::CloneTo,
+    })
+}
+
+fn op(u: &mut Unstructured) -> R<Op> {
+    let s = if n(u, 3)? == 0 { 1u8 } else { 0u8 };
+    Ok(match n(u, 44)? {
+        0..=3 => Op::Insert { s, k: keysel(u)?, v: n(u, 999)? },
+        4 => Op::InsertMany { s, n: 1 + n(u, 139)?, v: n(u, 999)? },
+        5 => Op::Get { s, k: keysel(u)? },
+        6 => Op::GetMut { s, k: keysel(u)?, w: optw(u)? },
+        7 => Op::GetKeyValueMut { s, k: keysel(u)?, w: optw(u)? },
+        8 | 9 => Op::Remove { s, k: keysel(u)? },
+        10 => Op::RemoveEntry { s, k: keysel(u)? },
+        11 => Op::RemoveMany { s, n: 1 + n(u, 139)?, stride: u16_(u)? },
+        12..=15 => Op::Entry { s, k: keysel(u)?, chain: chain(u)? },
+        16..=18 => Op::RawEntryMut { s, k: keysel(u)?, how: [RawHow::FromKey, RawHow::FromKeyHashedNocheck, RawHow::FromHash][n(u, 2)? as usize], chain: chain(u)? },
+        19 => Op::Iterate { s, kind: [IterKind::Iter, IterKind::Keys, IterKind::Values, IterKind::RefIntoIter][n(u, 3)? as usize], clone_at: take(u)?, extra: n(u, 3)? as u8, write: None },
+        20 => Op::Iterate { s, kind: [IterKind::IterMut, IterKind::ValuesMut, IterKind::MutIntoIter][n(u, 2)? as usize], clone_at: None, extra: n(u, 3)? as u8, write: optw(u)? },
+        21 => Op::Drain { s, take: take(u)?, forget: n(u, 3)? == 0 },
+        22 => Op::IntoIter { s, take: take(u)? },
+        23 | 24 => Op::Retain { s, pred: pred(u)?, mutate: optw(u)? },
+        25 | 26 => Op::DrainFilter { s, pred: pred(u)?, mutate: optw(u)?, take: take(u)?, forget: n(u, 3)? == 0 },
+        27 => Op::Clear { s },
+        28 => Op::Reserve { s, n: caparg(u)?, follow: b(u)? },
+        29 => Op::TryReserve { s, n: caparg(u)?, follow: b(u)? },
+        30 => Op::ShrinkToFit { s },
+        31 => Op::ShrinkTo { s, m: caparg(u)? },
+        32 => Op::CloneTo { dst: n(u, 1)? as u8, src: n(u, 1)? as u8 },
+        33 => {
+            let d = n(u, 1)? as u8;
+            Op::CloneFrom { dst: d, src: 1 - d }
+        }
+        34..=36 => Op::TriggerGrowth { s },
+        37 => Op::Advance { s, n: 1 + n(u, 4)? as u8 },
+        38 => Op::RemoveOld { s, how: n(u, 4)? as u8, keep: n(u, 11)? as u8 },
+        39 => if n(u, 1)? == 0 { Op::RemoveAll { s } } else { Op::TightShrink { s } },
+        40 => Op::SetPoint { s, k: keysel(u)?, which: n(u, 8)? as u8 },
+        41 => Op::SetMisc { s, which: n(u, 4)? as u8, arg: caparg(u)? },
+        42 => Op::SetRetain { s, pred: pred(u)? },
+        43 => Op::SetDrainFilter { s, pred: pred(u)?, take: take(u)?, forget: n(u, 3)? == 0 },
+        _ => Op::Z(zop(u)?),
+    })
+}
+
+const CAPS: [u32; 8] = [0, 3, 7, 14, 15, 28, 29, 57];
+
+/// bytes -> case
+pub fn decode(data: &[u8]) -> Option<Case> {
+    let mut u = Unstructured::new(data);
+    let r = (|| -> R<Case> {
+        let family = if n(&mut u, 1)? == 0 { Family::P } else { Family::T };
+        let modes = [HMode::Good, HMode::Good, HMode::Identity, HMode::Low, HMode::Collide];
+        let h0 = VH { mode: modes[n(&mut u, 4)? as usize], seed: u.arbitrary::<u16>()? as u64 };
+        let h1 = VH { mode: modes[n(&mut u, 4)? as usize], seed: u.arbitrary::<u16>()? as u64 };
+        let init_cap = [CAPS[n(&mut u, 7)? as usize], CAPS[n(&mut u, 7)? as usize]];
+        let universe = [8u32, 64, 512, 4096][n(&mut u, 3)? as usize];
+        let mut ops = Vec::new();
+        // prelude: a map of some size, usually mid-resize
+        let n0 = n(&mut u, 140)?;
+        if n0 > 0 {
+            ops.push(Op::InsertMany { s: 0, n: n0, v: 1 });
+        }
+        if n(&mut u, 4)? != 0 {
+            ops.push(Op::TriggerGrowth { s: 0 });
+        }
+        while !u.is_empty() && ops.len() < 48 {
+            ops.push(op(&mut u)?);
+        }
+        Ok(Case { family, hashers: [h0, h1], init_cap, universe, ops })
+    })();
+    r.ok()
 }
 
 pub fn one(data: &[u8]) {
